@@ -1,14 +1,14 @@
 SPECIFICATION MCSpec
 CONSTANTS ReaderCap = 1
   ValCap0 = 1
-  Mode = "none"
-  MainKeepsReceiver = TRUE
+  Mode = "check"
+  MainKeepsReceiver = FALSE
   Links = {1, 2}
   MaxBatches = 3
   Full = 2
   MaxStops = 1
   MaxSignals = 2
-  Handler = "count"
+  Handler = "flag"
 INVARIANTS OrderlyOnOneSignal TypeOK AllJoined CollectorLast WholeOut NoDeadlock
 PROPERTY Terminates
 CHECK_DEADLOCK FALSE
